@@ -62,6 +62,11 @@ def stack_queries(nn, quick_shapes=((1, 0), (1, 1), (2, 0), (2, 1), (2, 2)), tho
     return qs
 
 
+def macro_queries(nn):
+    """api/macros.cpp: every spelling of the expectation macros (NAMED_*_V, scoped *_V, C++14 forms) stores the documented limits and keeps its clauses"""
+    return [Q('macros_form%d' % f, 'api/macros.cpp', 10, defs={'VF_FORM': f, 'VF_CLAIM': nn}, timeout=900, portfolio=True) for f in (1, 2, 3)]
+
+
 def plumb_queries(nn, scenes):
     return [Q('plumb_scene%d' % sc, 'api/plumb.cpp', 8, defs={'VF_SCENE': sc, 'VF_CLAIM': nn}, timeout=600) for sc in scenes]
 
@@ -77,7 +82,7 @@ STACK_BOUND = ('api/stack: N<=2 (quick) / N<=3 (thorough) live expectations f(ge
 @prop('C01')
 def c01():
     return dict(
-        queries=find_queries() + stack_queries(1) + plumb_queries(1, (1, 2, 6)) + [q for q in seqkern_queries(1) if q['defs']['VF_OP'] == 0 and q['defs']['VF_K'] == 2 and q['defs']['VF_N'] == 3 and q['tier'] == 'quick'] + [Q('actions_W%d_S1_mode0_at0_b%d' % (w, b), 'C08/actions.cpp', 6, defs={'VF_W': w, 'VF_S': 1, 'VF_MODE': 0, 'VF_AT': 0, 'VF_B': b, 'VF_CLAIM': 1}) for w, b in ((2, 2), (3, 4), (3, 6), (3, 5))] + seqstep_queries(1, quick_only=1)[:1] + [Q('dtor_order5', 'C04/dtor.cpp', 10, defs={'VF_ORDER': 5, 'VF_CLAIM': 1}, timeout=900, portfolio=True)] + [q for q in mismatch_queries(1) if q['tier'] == 'quick' and q['defs']['VF_NA'] + q['defs']['VF_NS'] <= 2],
+        queries=find_queries() + stack_queries(1) + plumb_queries(1, (1, 2, 6)) + macro_queries(1)[:1] + [q for q in seqkern_queries(1) if q['defs']['VF_OP'] == 1 and q['defs']['VF_K'] == 2 and q['defs']['VF_N'] == 3 and q['tier'] == 'quick'] + [q for q in seqkern_queries(1) if q['defs']['VF_OP'] == 0 and q['defs']['VF_K'] == 2 and q['defs']['VF_N'] == 3 and q['tier'] == 'quick'] + [Q('actions_W%d_S1_mode0_at0_b%d' % (w, b), 'C08/actions.cpp', 6, defs={'VF_W': w, 'VF_S': 1, 'VF_MODE': 0, 'VF_AT': 0, 'VF_B': b, 'VF_CLAIM': 1}) for w, b in ((2, 2), (3, 4), (3, 6), (3, 5))] + seqstep_queries(1, quick_only=1)[:1] + [Q('dtor_order5', 'C04/dtor.cpp', 10, defs={'VF_ORDER': 5, 'VF_CLAIM': 1}, timeout=900, portfolio=True)] + [q for q in mismatch_queries(1) if q['tier'] == 'quick' and q['defs']['VF_NA'] + q['defs']['VF_NS'] <= 2],
         level='model_checking',
         level_text='Bounded: real find<Sig>() for all match/cost vectors; one real mock call against N<=2(3) real stacked expectations from an arbitrary invariant-satisfying counter state with arbitrary matcher operands and argument: accepted iff the designated candidate exists and is not forbidding, otherwise exactly one fatal report and no effect.',
         bound=STACK_BOUND + '; find<Sig> list length <=4 (6)',
@@ -94,7 +99,7 @@ def c03():
     for r in (1, 2):
         qs.append(Q('run_regime%d' % r, 'C03/run.cpp', 4, tier='thorough', defs={'VF_REGIME': r}, timeout=600))
     return dict(
-        queries=qs + stack_queries(3) + [Q('dtor_order%d' % o, 'C04/dtor.cpp', 10, defs={'VF_ORDER': o, 'VF_CLAIM': 3}, timeout=900) for o in (1, 4)] + plumb_queries(3, (7, 8, 9, 10, 12)) + [q for q in mismatch_queries(3) if q['tier'] == 'quick' and q['defs']['VF_NS'] == 2 and q['defs']['VF_NA'] == 0] + [Q('mismatch_A1_S1_15', 'C15/mismatch.cpp', 14, defs={'VF_NA': 1, 'VF_NS': 1, 'VF_C0': 1, 'VF_C1': 5, 'VF_CLAIM': 3})],
+        queries=qs + macro_queries(3) + stack_queries(3) + [Q('dtor_order%d' % o, 'C04/dtor.cpp', 10, defs={'VF_ORDER': o, 'VF_CLAIM': 3}, timeout=900) for o in (1, 4)] + plumb_queries(3, (7, 8, 9, 10, 12)) + [q for q in mismatch_queries(3) if q['tier'] == 'quick' and q['defs']['VF_NS'] == 2 and q['defs']['VF_NA'] == 0] + [Q('mismatch_A1_S1_15', 'C15/mismatch.cpp', 14, defs={'VF_NA': 1, 'VF_NS': 1, 'VF_C0': 1, 'VF_C1': 5, 'VF_CLAIM': 3})],
         level='model_checking',
         level_text='Bounded/inductive: counter predicates for all 64-bit (L,H,count); one real mock call from an arbitrary invariant-satisfying counter state moves the expectation to the saturated list iff count reaches H, stacked or alone.',
         bound='one step from an arbitrary counter state; ' + STACK_BOUND,
@@ -106,7 +111,7 @@ def c03():
 @prop('C07')
 def c07():
     return dict(
-        queries=stack_queries(7) + [Q('run_forbidden', 'C03/run.cpp', 4, defs={'VF_REGIME': 0})] + plumb_queries(7, (6, 15)),
+        queries=stack_queries(7) + [Q('run_forbidden', 'C03/run.cpp', 4, defs={'VF_REGIME': 0})] + plumb_queries(7, (6, 15)) + macro_queries(7),
         level='model_checking',
         level_text='Bounded: a forbidding (H==0) designated candidate yields exactly one fatal report with its location, no count change, no side effect, stays active, satisfied and saturated; non-matching calls pass it by.',
         bound=STACK_BOUND,
@@ -130,7 +135,7 @@ def c08():
                                     defs={'VF_W': w, 'VF_S': sn, 'VF_MODE': mode, 'VF_AT': at, 'VF_B': b, 'VF_CLAIM': 8}, tv=(i % 11 == 0), timeout=600))
                         i += 1
     return dict(
-        queries=qs + stack_queries(8, quick_shapes=((1, 0), (2, 1), (2, 2)), thorough_shapes=((2, 0),)) + plumb_queries(8, (11,)) + [Q('dtor_order5', 'C04/dtor.cpp', 10, defs={'VF_ORDER': 5, 'VF_CLAIM': 8}, timeout=900, portfolio=True)] + [q for q in mismatch_queries(8) if q['tier'] == 'quick' and q['defs']['VF_NA'] + q['defs']['VF_NS'] <= 2 and q['defs']['VF_NA'] >= 1],
+        queries=qs + [Q('retref', 'C08/retref.cpp', 6, defs={'VF_CLAIM': 8}, timeout=600)] + stack_queries(8, quick_shapes=((1, 0), (2, 1), (2, 2)), thorough_shapes=((2, 0),)) + plumb_queries(8, (11,)) + [Q('dtor_order5', 'C04/dtor.cpp', 10, defs={'VF_ORDER': 5, 'VF_CLAIM': 8}, timeout=900, portfolio=True)] + [q for q in mismatch_queries(8) if q['tier'] == 'quick' and q['defs']['VF_NA'] + q['defs']['VF_NS'] <= 2 and q['defs']['VF_NA'] >= 1],
         level='model_checking',
         level_text='Bounded: for every clause arrangement (0..3 WITH x 0..3 SIDE_EFFECT x RETURN/THROW/throwing side effect/void) and every WITH outcome vector: WITH clauses run in declaration order and stop at the first false, side effects run once each in order and only then RETURN/THROW once, the value / exception reaches the caller for all 32-bit values, a throwing call still counts, and a shadowed expectation\'s actions never run.',
         bound='clause arrangements up to 3+3 (enumerated shapes, WITH outcomes as shape); argument, returned and thrown values symbolic; ' + STACK_BOUND,
@@ -142,7 +147,7 @@ def c08():
 @prop('C04')
 def c04():
     qs = [Q('dtor_order%d' % o, 'C04/dtor.cpp', 10, defs={'VF_ORDER': o, 'VF_CLAIM': 4}, timeout=900, portfolio=(o == 5)) for o in (0, 1, 2, 3, 4, 5)]
-    qs += plumb_queries(4, (10, 13)) + [q for q in mismatch_queries(4) if q['tier'] == 'quick' and q['defs']['VF_NA'] <= 1]
+    qs += macro_queries(4) + plumb_queries(4, (10, 13)) + [q for q in mismatch_queries(4) if q['tier'] == 'quick' and q['defs']['VF_NA'] <= 1]
     return dict(
         queries=qs,
         level='model_checking',
@@ -202,7 +207,7 @@ DEATH_BOUND = 'all legal histories of length <=3 (quick) / <=4 (thorough) over {
 @prop('C13')
 def c13():
     return dict(
-        queries=death_queries(13) + [Q('null_on_move', 'C13/nom.cpp', 3), Q('seqdeath_K2', 'api/seqdeath.cpp', 6, defs={'VF_K': 2, 'VF_CLAIM': 13}, timeout=900)],
+        queries=death_queries(13) + [Q('unwind_form%d' % f, 'C13/unwind.cpp', 6, defs={'VF_FORM': f, 'VF_CLAIM': 13}, timeout=600) for f in (0, 1)] + [Q('null_on_move', 'C13/nom.cpp', 3), Q('seqdeath_K2', 'api/seqdeath.cpp', 6, defs={'VF_K': 2, 'VF_CLAIM': 13}, timeout=900)],
         level='model_checking',
         level_text='Bounded: every short history of requirement creation/release, destruction, copy/move/assignment on a deathwatched object yields exactly the reports and is_satisfied/is_saturated values of the 4-state reference; null_on_move special members for arbitrary pointer values. Histories are configurations (enumerated); memory safety of each is decided by the solver.',
         bound=DEATH_BOUND,
@@ -231,7 +236,7 @@ def c14():
                 qs.append(Q('list_N%d_op%d_pos%d' % (n, op, pos), 'C14/list.cpp', n + 4, tier='quick' if n <= 3 else 'thorough',
                             defs={'VF_N': n, 'VF_OP': op, 'VF_POS': pos}, tv=(n == 3 and pos == 0)))
     return dict(
-        queries=qs + death_queries(14) + [Q('dtor_order%d' % o, 'C04/dtor.cpp', 10, defs={'VF_ORDER': o, 'VF_CLAIM': 14}, timeout=600) for o in (1, 3)] + plumb_queries(14, (10, 13)) + [Q('seqgone_%d' % v, 'C14/seqgone.cpp', 6, defs={'VF_V': v, 'VF_CLAIM': 14}, sanitize=True) for v in (0, 1, 2)] + order_queries(14),
+        queries=qs + death_queries(14) + [Q('dtor_order%d' % o, 'C04/dtor.cpp', 10, defs={'VF_ORDER': o, 'VF_CLAIM': 14}, timeout=600) for o in (1, 3)] + plumb_queries(14, (10, 13, 16)) + [Q('seqgone_%d' % v, 'C14/seqgone.cpp', 6, defs={'VF_V': v, 'VF_CLAIM': 14}, sanitize=True) for v in (0, 1, 2)] + order_queries(14),
         level='model_checking',
         level_text='Bounded: intrusive list primitives keep the ring invariant at every position of rings up to 4; every short destruction/copy/move/assignment history of a deathwatched object and its requirements, and mock-before-expectation destruction, run without touching freed or dead memory (CBMC pointer checks on every dereference of the IR-derived code).',
         bound='list rings n<=3 (4), every position, ops {push, unlink, move-ctor, move-assign, list move, dtor}; every third (quick) / every (thorough) destruction order of {mock, plain expectation, sequenced expectation, sequence, tracer} with probes on the survivors; ' + DEATH_BOUND,
@@ -299,7 +304,7 @@ SEQSTEP_BOUND = ('api/seqstep: three real expectations f(0),f(1),f(2) each in a 
 @prop('C05')
 def c05():
     return dict(
-        queries=seqkern_queries(5) + seqstep_queries(5) + [Q('seqpick_7', 'api/seqpick.cpp', 6, tier='thorough', defs={'VF_SCENE': 7, 'VF_CLAIM': 5}, timeout=1800, portfolio=True)] + [Q('seqdeath_K%d' % k, 'api/seqdeath.cpp', 6, defs={'VF_K': k, 'VF_CLAIM': 5}, timeout=900, portfolio=True) for k in (1, 2)] + seqdeath2_queries(5),
+        queries=find_queries() + seqkern_queries(5) + seqstep_queries(5) + [Q('seqpick_7', 'api/seqpick.cpp', 6, tier='thorough', defs={'VF_SCENE': 7, 'VF_CLAIM': 5}, timeout=1800, portfolio=True)] + [Q('seqdeath_K%d' % k, 'api/seqdeath.cpp', 6, defs={'VF_K': k, 'VF_CLAIM': 5}, timeout=900, portfolio=True) for k in (1, 2)] + seqdeath2_queries(5),
         level='model_checking',
         level_text='Bounded/inductive: cost/order/eligibility of real sequence handles equal the reference for every retirement pattern and all counters; one real call from an arbitrary invariant-satisfying state of three sequenced expectations: accepted iff every pending predecessor in every named sequence is satisfied, all predecessors are retired on a match, an ineligible match is exactly one fatal report and changes nothing.',
         bound=SEQKERN_BOUND + '; ' + SEQSTEP_BOUND,
@@ -310,7 +315,7 @@ def c05():
 @prop('C06')
 def c06():
     return dict(
-        queries=seqkern_queries(6) + seqstep_queries(6, quick_only=2) + plumb_queries(6, (14,)),
+        queries=seqkern_queries(6) + seqstep_queries(6, quick_only=2) + plumb_queries(6, (14,)) + [Q('seqdeath_K%d' % k, 'api/seqdeath.cpp', 6, defs={'VF_K': k, 'VF_CLAIM': 6}, timeout=900) for k in (1, 2)],
         level='model_checking',
         level_text='Bounded: is_completed() iff every listed handle is satisfied, before and after a real call; sequence destruction reports once, non-fatally, exactly the listed expectations in registration order and detaches them; empty teardown is silent; released / saturated handles leave.',
         bound=SEQKERN_BOUND + '; ' + SEQSTEP_BOUND,
@@ -338,7 +343,7 @@ def c09():
 def c10():
     import gen
     files = gen.c10_files(os.path.join(GEN, 'C10'), CUR_TIER, CUR_SEED)
-    qs = [Q(name, path, 3, timeout=900, ncases=n, portfolio=True) for name, path, n in files] + [Q('re_null_guard', 'C10/re.cpp', 6, defs={'VF_CLAIM': 10})]
+    qs = [Q(name, path, 3, timeout=900, ncases=n, portfolio=True) for name, path, n in files] + [Q('re_null_guard', 'C10/re.cpp', 16, defs={'VF_CLAIM': 10}), Q('fp_order', 'C10/fp.cpp', 4, timeout=600)]
     return dict(
         queries=qs,
         level='model_checking',
@@ -512,6 +517,11 @@ def c20():
         for y, yt in ((2, 1), (3, 1), (3, 2)):
             qs.append(Q('co_eager%d_y%d_yieldthrows%d' % (eager, y, yt), 'C20/co.cpp', 8, std='c++20',
                         defs={'VF_EAGER': eager, 'VF_Y': y, 'VF_END': 0, 'VF_CALLS': 1, 'VF_RFIRST': 0, 'VF_YT': yt, 'VF_CLAIM': 20}, timeout=600))
+    # the CO_RETURN expression reads a by-copy capture with a destructive move constructor; two calls, each run to its end
+    for eager in (0, 1):
+        for y in (0, 2):
+            qs.append(Q('co_eager%d_y%d_movable_capture' % (eager, y), 'C20/co.cpp', 8, std='c++20',
+                        defs={'VF_EAGER': eager, 'VF_Y': y, 'VF_END': 0, 'VF_CALLS': 2, 'VF_RFIRST': 0, 'VF_MV': 1, 'VF_CLAIM': 20}, timeout=600))
     return dict(
         queries=qs,
         level='model_checking',
